@@ -666,3 +666,28 @@ highest_density_region = Contract(
                     scope="all waveforms over {0,1,2,4} of 2..4 samples (a fifth of those of 5 samples) with a unique maximum x fractions "
                           "{0.25, 0.5, 0.75}; one fraction per call",
                     nontrivial=lambda i: len(i["data"]) >= 3))
+
+
+# ---- replay harness of the PROVED contract of _replace_merged: the compiled kernel and its py_func on real peak arrays ----------
+def _rmk_gen(rng, tier):
+    strax = _strax()
+    for inp in _rm_gen(rng, tier):
+        orig, merge = inp["orig"], inp["merge"]
+        sw = strax.touching_windows(orig, merge)
+        skip_n = int(np.diff(sw, axis=1).sum())
+        yield dict(result=np.zeros(len(orig) - skip_n + len(merge), dtype=orig.dtype), orig=orig, merge=merge, skip_windows=sw)
+
+
+def _rmk_native(py):
+    def run(i):
+        import strax.processing.peak_merging as pm
+        f = pm._replace_merged
+        (getattr(f, "py_func", f) if py else f)(i["result"], i["orig"], i["merge"], i["skip_windows"])
+        return None
+    return run
+
+
+PK._replace_merged.harness = Harness(
+    native=_rmk_native(False), variants=[("py_func", _rmk_native(True))], gen=_rmk_gen,
+    scope="random disjoint peak lists of 1..7 peaks with merged runs of 2..3 consecutive peaks, skip windows from the real touching_windows",
+    nontrivial=lambda i: len(i["orig"]) >= 2)
